@@ -52,6 +52,8 @@ fn dump_file(obj: &DefaultDicomObject) -> Out {
 pub enum Depth {
     Full,
     Lean,
+    /// data sets only: DataSetReader (preserved, interpreted+flexible) and LazyDataSetReader (owned)
+    Minimal,
 }
 
 /// Data set readers on a bare data set in transfer syntax TS3[ti].
@@ -63,6 +65,9 @@ pub fn dataset_eps(cx: &mut Ctx, ti: usize, d: &[u8], what: &dyn Fn() -> String,
     for (vs, vn) in VS {
         for flex in [false, true] {
             if depth == Depth::Lean && !(vs == ValueReadStrategy::Preserved || (vs == ValueReadStrategy::Interpreted && !flex)) {
+                continue;
+            }
+            if depth == Depth::Minimal && !((vs == ValueReadStrategy::Preserved && !flex) || (vs == ValueReadStrategy::Interpreted && flex)) {
                 continue;
             }
             cfgs.push((vs, flex, OddLengthStrategy::Accept, format!("{vn}/flex={flex}/accept")));
@@ -105,6 +110,10 @@ pub fn dataset_eps(cx: &mut Ctx, ti: usize, d: &[u8], what: &dyn Fn() -> String,
         lazy.push(("skip", OddLengthStrategy::Fail, "fail"));
         lazy.push(("owned-interpreted", OddLengthStrategy::Accept, "accept"));
     }
+    if depth == Depth::Minimal {
+        lazy.truncate(0);
+        lazy.push(("owned", OddLengthStrategy::Accept, "accept"));
+    }
     for (mode, odd, on) in lazy {
         cx.exec("LazyDataSetReader", &format!("{mode}/{on}"), tn, what, d, || {
             let mut o = LazyDataSetReaderOptions::default();
@@ -144,6 +153,9 @@ pub fn dataset_eps(cx: &mut Ctx, ti: usize, d: &[u8], what: &dyn Fn() -> String,
                 }
             }
         });
+    }
+    if depth == Depth::Minimal {
+        return;
     }
     // the in-memory object reader on a bare data set, then dump
     let mut got = None;
